@@ -60,3 +60,20 @@ for fn_ in sorted(os.listdir(os.path.join(root, 'bubus'))):
 old = json.load(open(p))
 old['attrs'] = attrs
 json.dump(old, open(p, 'w'), indent=0, ensure_ascii=False)
+# module-level names (new module-level literals are named constants: sa/consts.py)
+globs = {}
+for fn_ in sorted(os.listdir(os.path.join(root, 'bubus'))):
+    if not fn_.endswith('.py'):
+        continue
+    tree = ast.parse(open(os.path.join(root, 'bubus', fn_), encoding='utf-8').read())
+    names = set()
+    for st in ast.walk(tree):
+        if isinstance(st, (ast.Assign, ast.AnnAssign)) and st in tree.body or (isinstance(st, (ast.Assign, ast.AnnAssign)) and getattr(st, 'col_offset', 1) == 0):
+            for t in (st.targets if isinstance(st, ast.Assign) else [st.target]):
+                if isinstance(t, ast.Name):
+                    names.add(t.id)
+    globs[f'bubus/{fn_}'] = sorted(names)
+old = json.load(open(p))
+old['globals'] = globs
+old['_comment_globals'] = 'module-level names the rules were written against; a module-level name that is NOT listed and is bound once to a literal is a named constant, written out at its uses (sa/consts.py)'
+json.dump(old, open(p, 'w'), indent=0, ensure_ascii=False)
